@@ -417,6 +417,8 @@ func (m *Machine) resetPath() {
 	m.curFrame = nil
 	m.preempts = 0
 	m.posCount = nil
+	m.entryCount = nil
+	m.syncSeq = 0
 	m.delays = nil
 	m.ctx.nfresh = 0
 	m.pendingEnd = nil
@@ -427,6 +429,7 @@ func (m *Machine) resetPath() {
 	m.fmtOpaque = 0
 	m.timerRace = m.P.TimerRace
 	m.fixedClock = false
+	m.preemptOff = false
 	m.clockTick = 0
 	m.aborting = false
 	g0 := &G{id: 0, started: true, resume: make(chan struct{})}
